@@ -428,10 +428,24 @@ pub fn check(c: &Case) -> Verdict {
     }
 
     // ---- 4. natural hard errors ----------------------------------------------------------
-    for (what, o2) in [
+    // a crash context whose instruction pointer lies in a mapping that is listed but cannot be read
+    // ([vvar]): the memory window around it fails hard, in the middle of the thread-list stage
+    let vvar = crate::props::fid::parse_maps(&t.maps_text().unwrap_or_default()).iter().find(|l| l.name == "[vvar]").map(|l| l.start + 0x40);
+    let unreadable_ip = vvar.map(|ip| {
+        let mut s = 98u64;
+        let mut gregs: Vec<i64> = (0..23).map(|_| splitmix(&mut s) as i64).collect();
+        gregs[crate::vcore::regs::REG_RSP] = (appmap + 64) as i64;
+        gregs[crate::vcore::regs::REG_RIP] = ip as i64;
+        DumpOpts { crash: Some(CrashContext2 { gregs, fp: fpstate_of_fx(&sentinel_fx(4)), signo: 11, code: 1, addr: 0, tid: opts.blamed }), ..opts.clone() }
+    });
+    let mut hard = vec![
         ("unreadable app memory", DumpOpts { app_memory: vec![(0x3000_0000_0000, 64)], ..opts.clone() }),
         ("blamed thread that does not exist", DumpOpts { blamed: 0x3fff_fff0, crash: None, app_memory: vec![], ..opts.clone() }),
-    ] {
+    ];
+    if let Some(o) = unreadable_ip {
+        hard.push(("crash instruction pointer in a listed but unreadable mapping", o));
+    }
+    for (what, o2) in hard {
         let mut w = make_writer(pid, &o2);
         let mut dest = Dest::new(vec![], 0);
         let o = with_failspots(mask, || run_dump(&mut w, &mut dest));
@@ -639,7 +653,7 @@ pub fn run(ctx: &mut LaneCtx) {
         SubSpec {
             name: "faults-and-signals",
             cases: (64, 2_000),
-            rule: "per generated scenario (1..12 sleeper/parked/spinner/exiter threads and at most one sandbox-style helper thread running with a null stack pointer, signal schedule of up to 9 entries over 7 phase points (with extra weight on the attach of the signalled thread itself) x thread x {SIGUSR1,SIGHUP,SIGTRAP,SIGURG,SIGRTMIN+0..3} x count 1..5, StopProcess fail point on/off, a size limit (none / 0..120000 bytes / any) in three scenarios of ten, exiters cued at the threads-enumerated hook): one fault-free dump with the schedule, then EVERY destination call failing as I/O error and as panic (exhaustive per scenario), sampled fail-point subsets, two natural hard errors and six dumps taken while the dumper may only open 0, 1, 2, 3, 5 or 8 more descriptors (every further open fails with EMFILE); after each of them the liveness predicate, after the first the signal accounting; every scenario is non-trivial; distinct = hash of scenario",
+            rule: "per generated scenario (1..12 sleeper/parked/spinner/exiter threads and at most one sandbox-style helper thread running with a null stack pointer, signal schedule of up to 9 entries over 7 phase points (with extra weight on the attach of the signalled thread itself) x thread x {SIGUSR1,SIGHUP,SIGTRAP,SIGURG,SIGRTMIN+0..3} x count 1..5, StopProcess fail point on/off, a size limit (none / 0..120000 bytes / any) in three scenarios of ten, exiters cued at the threads-enumerated hook): one fault-free dump with the schedule, then EVERY destination call failing as I/O error and as panic (exhaustive per scenario), sampled fail-point subsets, three natural hard errors (unreadable application memory, a blamed thread that does not exist, a crash instruction pointer inside the listed but unreadable [vvar] mapping) and six dumps taken while the dumper may only open 0, 1, 2, 3, 5 or 8 more descriptors (every further open fails with EMFILE); after each of them the liveness predicate, after the first the signal accounting; every scenario is non-trivial; distinct = hash of scenario",
             strategy: case_strategy().boxed(),
             max_shrink_iters: 40,
             log_current: true,
